@@ -242,6 +242,12 @@ func (x *Exec) valuesEqual(a, b Value) *Term {
 			return mkEq(va.sym, ob.id) // identities of unknown objects
 		}
 		if vb, ok := b.(*Ptr); ok {
+			if va.cell == nil && vb.cell != nil && vb.mayNil && vb.sym != nil {
+				return mkEq(vb.sym, mkInt(0))
+			}
+			if vb.cell == nil && va.cell != nil && va.mayNil && va.sym != nil {
+				return mkEq(va.sym, mkInt(0))
+			}
 			if va.cell == nil || vb.cell == nil {
 				return mkBool(va.cell == vb.cell)
 			}
@@ -332,6 +338,11 @@ func (x *Exec) valuesEqual(a, b Value) *Term {
 				}
 				return tFalse
 			}
+			// == on non-nil slices exists only in specifications: the same view of the same backing array
+			if va.cell != vb.cell {
+				return tFalse
+			}
+			return mkAnd(mkEq(va.off, vb.off), mkEq(va.len, vb.len))
 		}
 	case *Func:
 		if vb, ok := b.(*Func); ok {
@@ -987,6 +998,15 @@ func (x *Exec) builtin(st *State, fr *Frame, name string, args []Value, c *ssa.C
 		return ret(mkMax(a, b))
 	case "print", "println":
 		return ret()
+	case "ssa:wrapnilchk":
+		// receiver of a value method called through a pointer: panics when nil
+		if p, ok := args[0].(*Ptr); ok {
+			if p.cell == nil {
+				return []Out{{st: st, kind: oPanic, msg: "value method called using nil pointer"}}
+			}
+			x.derefCheck(st, fr, p, 0)
+		}
+		return ret(args[0])
 	case "delete":
 		fail("delete builtin not modelled")
 	}
